@@ -22,6 +22,7 @@ RULE = (
     "the union with b's definitions winning, and b's own serialisation is unchanged. Non-trivial = history with a same-name "
     "insertion (replace path), an unnamed automatic insertion, or a merge; distinct by case."
     ' Also: already-attached Style objects inserted again (from another document / another container); an insertion touches'
+    ' styles carrying a display name (style:display-name, changed between two insertions under one family+name);'
     ' one place only (every other style unchanged); sheets sharing one table style and set_table_displayed on one of them; '
     'get_styles listings for str and bytes spellings of the family with both automatic flags.'
 )
@@ -127,6 +128,10 @@ def run_case(case, ctx):
                     ctx.count("style-ctor-rejected:" + family)
                     continue
                 style.set_attribute("style:class", fp)
+                if op.get("display") is not None and family in STD:
+                    # the label shown by the desktop application: it is no part of the key (family + name)
+                    style.set_attribute("style:display-name", ["Label A", "Label B", "Étiquette  C", ""][op["display"] % 4] or None)
+                    labels.add("display-name-given")
                 before = style_index(parts_of(doc))
                 prior_names = {kk[4] for kk in before if kk[3] == family or (kk[2] == style.tag.split(":")[1] and not kk[3])}
                 arg = style.serialize() if op["as_xml"] and family in STD else style
@@ -340,6 +345,9 @@ def run_shard(ctx):
         st.fixed_dictionaries({"k": st.just("insert"), "family": fam, "mode": st.sampled_from(["common", "common", "automatic", "default"]),
                                "unnamed": st.just(False), "name": st.integers(0, 4), "as_xml": st.just(False), "focused": st.booleans(),
                                "attached": st.sampled_from(["other", "other", "same"])}),
+        st.fixed_dictionaries({"k": st.just("insert"), "family": fam, "mode": st.sampled_from(["common", "common", "automatic"]),
+                               "unnamed": st.just(False), "name": st.integers(0, 2), "as_xml": st.booleans(), "focused": st.just(True),
+                               "display": st.integers(0, 3)}),
         st.fixed_dictionaries({"k": st.just("page_break")}),
         st.fixed_dictionaries({"k": st.just("table_displayed"), "flag": st.booleans()}),
         st.fixed_dictionaries({"k": st.just("table_displayed"), "flag": st.booleans(), "share": st.sampled_from(["made", "made", "as-is"]), "which": st.integers(0, 2)}),
